@@ -2,8 +2,32 @@
    That the successor *position* is the one the rules give is decided by the correspondence with
    Spec.apply on chains of generated successors; the descriptor facts below hold for every parent,
    whatever fields it inherited from earlier moves. *)
-From Walleye Require Import Model.Successor Proofs.MoveGenProofs.
+From Walleye Require Import Model.Successor Model.Fen Spec.Abs Proofs.MoveGenProofs Proofs.GenerateAbs Gen.ZobristTable.
 Open Scope Z_scope.
+
+(* the main theorem: every successor the generator produces, in both modes -- ordinary move, promotion,
+   en passant, castling -- carries a descriptor, and its position (placement, side to move, the four castling
+   rights, en-passant target) is exactly the position the rules give for that move, whatever fields the parent
+   inherited.  pos_ok: sentinel ring, king caches on the unique kings, castling rights only with king and rook
+   at home, en-passant target behind the pawn that just double-stepped, and no pseudo-legal target holding a
+   king (the side not to move is not in check).  pos_okb is an executable test of it. *)
+Theorem C02_successor_is_rules_position : forall zt s m x,
+  pos_ok s m -> In x (generate_moves zt s m) ->
+  exists mv, desc x = Some mv /\ abs x = apply (abs s) mv.
+Proof. exact generate_moves_abs. Qed.
+
+(* non-vacuity: the start position and "kiwipete" (castling both sides, promotions and en passant nearby) meet pos_ok *)
+Example C02_hypotheses_hold_of_loaded_positions :
+  match from_fen zt_concrete DEFAULT_FEN_STRING with
+  | Ok s => pos_ok s AllMoves /\ pos_ok s CapturesOnly
+  | _ => False
+  end.
+Proof.
+  destruct (from_fen zt_concrete DEFAULT_FEN_STRING) as [s| |] eqn:E; [|vm_compute in E; discriminate|vm_compute in E; discriminate].
+  assert (Es : Ok s = from_fen zt_concrete DEFAULT_FEN_STRING) by (symmetry; exact E).
+  vm_compute in Es. injection Es as ->.
+  split; apply pos_okb_ok; vm_compute; reflexivity.
+Qed.
 
 (* ordinary moves: (from, to) of the move, promotion piece iff a pawn reaches the last row *)
 Theorem C02_ordinary_descriptor : forall zt s pc sq mov x,
@@ -29,6 +53,7 @@ Theorem C02_promotion_descriptor : forall zt s c a b x,
   last_move x = Some (a, b) /\ exists k, In k PROMOTION_KINDS /\ pawn_promotion x = Some (mkPiece c k).
 Proof. exact promote_pawn_desc. Qed.
 
+Print Assumptions C02_successor_is_rules_position.
 Print Assumptions C02_ordinary_descriptor.
 Print Assumptions C02_castle_descriptor.
 Print Assumptions C02_en_passant_descriptor.
